@@ -28,7 +28,14 @@ def gen_case(rng):
 
 
 def respell(rng, kind, recs):
-    mode = rng.choice(["case", "case", "lower", "tu", "tu+case"] if kind == "nuc" else ["case", "case", "lower", "upper-lower-mix"])
+    mode = rng.choice(["case", "case", "lower", "tu", "tu+case", "case_by_letter"] if kind == "nuc" else ["case", "case", "lower", "upper-lower-mix", "case_by_letter"])
+    if mode == "case_by_letter":
+        # the case pattern depends on the letter: e.g. only A/C/G/T/N upper case, everything else lower case
+        up = set(rng.choice(["ACGTN", "ACGTUN", "DEFHIKLMPQRSVWY", "AEIOU", "".join(rng.sample("ACDEFGHIKLMNPQRSTVWYU", 6))]))
+        out = [(n, "".join(c.upper() if c.upper() in up else c.lower() for c in s)) for n, s in recs]
+        if out == recs:
+            out = [(n, s.lower()) for n, s in recs]
+        return mode, 1.0, out
     rate = rng.choice([0.01, 0.1, 0.5, 1.0])
     out = []
     for n, s in recs:
@@ -45,7 +52,22 @@ def respell(rng, kind, recs):
     return mode, rate, out
 
 
-def lib_run(ck, paths, recs, ty, nt, ctx):
+def lib_run(ck, paths, recs, ty, nt, ctx, array_api=False):
+    if array_api:
+        # kalign() on arrays: the kind is decided from the raw characters by kalign_arr_to_msa
+        sf = ck.tmp(".seqs")
+        common.write_bytes(sf, "".join(s + "\n" for _, s in recs))
+        r, lrecs = common.kvdrv(paths, ["arr2msa 1 %s" % sf, "free 1", "arr %s %d %d -1 -1 -1" % (sf, nt, ty)], scratch=ck.scratch)
+        if ck.proc_violations(r, dict(ctx, input=recs, api="kalign()"), allow_rcs=(0,)):
+            return None
+        a2 = next((x for x in lrecs if x.get("op") == "arr2msa"), None)
+        a = next((x for x in lrecs if x.get("op") == "arr"), None)
+        if a2 is None or a is None:
+            return None
+        rd = {"biotype": a2["biotype"], "rc": a2["rc"]}
+        rn = {"rc": a["rc"]}
+        d = {"rows": [{"name": n, "seq": row} for (n, _), row in zip(recs, a["rows"])]} if a["rc"] == 0 and len(a["rows"]) == len(recs) else {"rows": []}
+        return rd, rn, d
     f = ck.tmp(".fa")
     common.write_bytes(f, fmt.write_fasta(recs))
     r, lrecs = common.kvdrv(paths, kal.lib_script(f, ty, -1, -1, -1, nt, dump=True), scratch=ck.scratch)
@@ -67,8 +89,11 @@ def run_case(ck, paths, idx):
     nt = rng.choice([1, 4])
     ctx = {"kind": kind, "mode": mode, "rate": rate, "idx": idx}
     # undefined type first to learn the detected kind of both spellings
-    a = lib_run(ck, paths, recs, 5, nt, ctx)
-    b = lib_run(ck, paths, recs2, 5, nt, ctx)
+    arr = rng.random() < 0.3
+    if arr:
+        ck.count("pairs_through_array_api")
+    a = lib_run(ck, paths, recs, 5, nt, ctx, arr)
+    b = lib_run(ck, paths, recs2, 5, nt, ctx, arr)
     if a is None or b is None:
         return
     if a[0]["biotype"] != b[0]["biotype"]:
@@ -80,8 +105,8 @@ def run_case(ck, paths, idx):
         return
     word = rng.choice(kal.ADMISSIBLE[det])
     if word is not None:
-        a = lib_run(ck, paths, recs, kal.TYPES[word], nt, ctx)
-        b = lib_run(ck, paths, recs2, kal.TYPES[word], nt, ctx)
+        a = lib_run(ck, paths, recs, kal.TYPES[word], nt, ctx, arr)
+        b = lib_run(ck, paths, recs2, kal.TYPES[word], nt, ctx, arr)
         if a is None or b is None:
             return
     ctx2 = dict(ctx, type=word, detected=det, input=recs, respelled=recs2, nthreads=nt)
@@ -115,7 +140,7 @@ def run(ck, tier):
     n = int((150 if tier == "quick" else 4000) * sc)
     common.pmap(lambda i: run_case(ck, paths, i), range(n), workers=12)
     ck.rule = ("nucleotide inputs over ACGT/ACGU/ACGTU/ACGTN (+ <= 4% IUPAC codes) and protein inputs (+ B/Z/X) re-spelled by random per-residue case flips "
-               "(rates 0.01..1), whole-sequence lower case and random T<->U substitutions; pair evaluated when kalign detects the same kind for both spellings; "
+               "(rates 0.01..1), whole-sequence lower case, case tied to the letter (e.g. only A/C/G/T/N upper case) and random T<->U substitutions; 30% of the pairs go through kalign() on arrays; pair evaluated when kalign detects the same kind for both spellings; "
                "all admissible types; threads 1/4. Oracle: identical gap pattern and letters equal to the re-spelled input. Non-trivial = output contains gaps.")
     ck.assumptions = ["library path (kalign_read_input + kalign_run) through kvdrv"]
 
